@@ -8,7 +8,7 @@
      RefPlainP   an element of the reference type has no content or exactly one text item
    The last two are PROVED for every loaded tree (both modes) of a table set with tables_ok and the two boolean table
    facts sn_charsb / ref_charsb (SHORT-NAME elements and the reference type have content mode Characters; true for the
-   regenerated tables by evaluation): load_sn_leaf_ref_plain. *)
+   regenerated tables by evaluation): load_sn_leaf, load_ref_plain. *)
 From Coq Require Import Arith Lia.
 From AV Require Import Base.Bytes Base.Outcome Base.Utf8 Hash.HashModel Spec.SpecTypes Spec.SpecOps Spec.Versions
   Xml.Lexer Xml.Parser Xml.TablesOk Xml.Funnel Xml.ParserCheck Xml.ParserDepth Xml.StrictValidDef Xml.StrictValid Xml.LoadRecords.
@@ -128,45 +128,67 @@ Proof.
   cbn [filter List.length]. f_equal. apply IH. intros c I. exact (H c (or_intror I)).
 Qed.
 
-Theorem sn_leaf_ref_plain t : sn_charsb = true -> ref_charsb = true ->
-  AllNodes (fun ty _ => etype_ok T ty) t -> linked T t -> single_valued T t ->
-  AllNodes (fun ty l => SnLeafP ty l /\ RefPlainP ty l) t.
+Theorem sn_leaf t : sn_charsb = true ->
+  AllNodes (fun ty _ => etype_ok T ty) t -> linked T t -> AllNodes SnLeafP t.
 Proof.
-  intros SC RC. induction 1 as [n ty a content cm TY KT IH]. intros LK SV.
+  intros SC. induction 1 as [n ty a content cm TY KT IH]. intros LK.
+  inversion LK as [n0 ty0 a0 c0 cm0 FD LC]; subst.
+  constructor; [|intros c I; exact (IH c I (LC c I))].
+  intros c I EN x IX.
+  destruct (found_named _ _ (FD c I)) as (e & EE & NM & TE).
+  pose proof (AllNodes_root _ _ (KT c I)) as TYc. cbn beta in TYc. pose proof TYc as (LE & LD & _).
+  unfold sn_charsb in SC. rewrite forallb_forall in SC. specialize (SC _ (proj2 (iota_spec _ _) LE)). rewrite EE in SC.
+  rewrite NM, EN, N.eqb_refl in SC. cbn [negb orb] in SC.
+  destruct (T_datatypes T (ed_type e)) as [d|] eqn:ED; [|discriminate SC]. apply N.eqb_eq in SC.
+  assert (CM : content_mode T (e_type c) = Val MCharacters).
+  { unfold content_mode, dt. rewrite TE, ED. cbn [unwrap bind]. rewrite SC. reflexivity. }
+  pose proof (chars_leaf _ (AllNodes_root _ _ (KT c I)) CM) as LF.
+  destruct c as [cn cty ca cc ccm]. cbn [e_type e_content] in *. exact (linked_leaf T _ _ _ _ _ (LC _ I) LF x IX).
+Qed.
+
+Theorem ref_plain t : ref_charsb = true ->
+  AllNodes (fun ty _ => etype_ok T ty) t -> linked T t -> single_valued T t -> AllNodes RefPlainP t.
+Proof.
+  intros RC. induction 1 as [n ty a content cm TY KT IH]. intros LK SV.
   inversion LK as [n0 ty0 a0 c0 cm0 FD LC]; subst. inversion SV as [n1 ty1 a1 c1 cm1 CT SVC]; subst.
-  constructor; [|intros c I; exact (IH c I (LC c I) (SVC c I))]. split.
-  - intros c I EN x IX.
-    destruct (found_named _ _ (FD c I)) as (e & EE & NM & TE).
-    pose proof (AllNodes_root _ _ (KT c I)) as TYc. cbn beta in TYc. pose proof TYc as (LE & LD & _).
-    unfold sn_charsb in SC. rewrite forallb_forall in SC. specialize (SC _ (proj2 (iota_spec _ _) LE)). rewrite EE in SC.
-    rewrite NM, EN, N.eqb_refl in SC. cbn [negb orb] in SC.
-    destruct (T_datatypes T (ed_type e)) as [d|] eqn:ED; [|discriminate SC]. apply N.eqb_eq in SC.
-    assert (CM : content_mode T (e_type c) = Val MCharacters).
-    { unfold content_mode, dt. rewrite TE, ED. cbn [unwrap bind]. rewrite SC. reflexivity. }
-    pose proof (chars_leaf _ (AllNodes_root _ _ (KT c I)) CM) as LF.
-    destruct c as [cn cty ca cc ccm]. cbn [e_type e_content] in *. exact (linked_leaf T _ _ _ _ _ (LC _ I) LF x IX).
-  - intros IR. unfold is_ref_b in IR. destruct (is_ref T ty) as [b| |] eqn:E; try discriminate IR. subst b.
-    unfold is_ref, dt in E. pose proof TY as (LE & LD & EX).
-    destruct (T_datatypes T (snd ty)) as [d|] eqn:ED; [|discriminate E]. cbn [unwrap bind] in E.
-    destruct (dt_cdata d =? 0) eqn:Z; [discriminate E|]. injection E as E.
-    unfold ref_charsb in RC. rewrite forallb_forall in RC. specialize (RC _ (proj2 (iota_spec _ _) LD)). rewrite ED, Z, E in RC.
-    cbn [negb orb] in RC. apply N.eqb_eq in RC.
-    assert (CM : content_mode T ty = Val MCharacters).
-    { unfold content_mode, dt. rewrite ED. cbn [unwrap bind]. rewrite RC. reflexivity. }
-    pose proof (chars_leaf _ (conj LE (conj LD EX)) CM) as LF.
-    pose proof (linked_leaf T _ _ _ _ _ LK LF) as NOEL. specialize (CT CM). rewrite <- (all_inr_length _ NOEL) in CT.
-    destruct content as [|[c|v] [|y r]]; [left; reflexivity|exfalso; exact (NOEL c (or_introl eq_refl))|exfalso; exact (NOEL c (or_introl eq_refl))|right; eauto|cbn in CT; lia].
+  constructor; [|intros c I; exact (IH c I (LC c I) (SVC c I))].
+  intros IR. unfold is_ref_b in IR. destruct (is_ref T ty) as [b| |] eqn:E; try discriminate IR. subst b.
+  unfold is_ref, dt in E. pose proof TY as (LE & LD & EX).
+  destruct (T_datatypes T (snd ty)) as [d|] eqn:ED; [|discriminate E]. cbn [unwrap bind] in E.
+  destruct (dt_cdata d =? 0) eqn:Z; [discriminate E|]. injection E as E.
+  unfold ref_charsb in RC. rewrite forallb_forall in RC. specialize (RC _ (proj2 (iota_spec _ _) LD)). rewrite ED, Z, E in RC.
+  cbn [negb orb] in RC. apply N.eqb_eq in RC.
+  assert (CM : content_mode T ty = Val MCharacters).
+  { unfold content_mode, dt. rewrite ED. cbn [unwrap bind]. rewrite RC. reflexivity. }
+  pose proof (chars_leaf _ (conj LE (conj LD EX)) CM) as LF.
+  pose proof (linked_leaf T _ _ _ _ _ LK LF) as NOEL. specialize (CT CM). rewrite <- (all_inr_length _ NOEL) in CT.
+  destruct content as [|[c|v] [|y r]]; [left; reflexivity|exfalso; exact (NOEL c (or_introl eq_refl))|exfalso; exact (NOEL c (or_introl eq_refl))|right; eauto|cbn in CT; lia].
 Qed.
 
 End Regular.
 
 (* ---------- every loaded tree, both modes ---------- *)
-Theorem load_sn_leaf_ref_plain T tab_el tab_at tab_en check_fn float_parse s bs t st :
-  tables_ok T = true -> sn_charsb T = true -> ref_charsb T = true ->
-  load s T tab_el tab_at tab_en check_fn float_parse bs = Val (Ret t st) ->
-  AllNodes (fun ty l => SnLeafP T ty l /\ RefPlainP T ty l) t.
+Lemma load_types_ok T tab_el tab_at tab_en check_fn float_parse s bs t st :
+  tables_ok T = true -> load s T tab_el tab_at tab_en check_fn float_parse bs = Val (Ret t st) ->
+  AllNodes (fun ty _ => etype_ok T ty) t /\ linked T t.
 Proof.
-  intros OK SC RC L. destruct (load_records T tab_el tab_at tab_en check_fn float_parse s bs t st L) as (_ & _ & LK & RT).
-  apply (sn_leaf_ref_plain T OK t SC RC); [|exact LK|exact (load_single_valued T tab_el tab_at tab_en check_fn float_parse s bs t st L)].
-  apply (linked_types_ok T OK t LK). destruct (et_new_ok T OK _ (ok_root T OK)) as (rt & E & TOK & _). rewrite RT in E. injection E as <-. exact TOK.
+  intros OK L. destruct (load_records T tab_el tab_at tab_en check_fn float_parse s bs t st L) as (_ & _ & LK & RT).
+  split; [|exact LK]. apply (linked_types_ok T OK t LK).
+  destruct (et_new_ok T OK _ (ok_root T OK)) as (rt & E & TOK & _). rewrite RT in E. injection E as <-. exact TOK.
+Qed.
+
+Theorem load_sn_leaf T tab_el tab_at tab_en check_fn float_parse s bs t st :
+  tables_ok T = true -> sn_charsb T = true ->
+  load s T tab_el tab_at tab_en check_fn float_parse bs = Val (Ret t st) -> AllNodes (SnLeafP T) t.
+Proof.
+  intros OK SC L. destruct (load_types_ok T tab_el tab_at tab_en check_fn float_parse s bs t st OK L) as [TY LK].
+  exact (sn_leaf T OK t SC TY LK).
+Qed.
+
+Theorem load_ref_plain T tab_el tab_at tab_en check_fn float_parse s bs t st :
+  tables_ok T = true -> ref_charsb T = true ->
+  load s T tab_el tab_at tab_en check_fn float_parse bs = Val (Ret t st) -> AllNodes (RefPlainP T) t.
+Proof.
+  intros OK RC L. destruct (load_types_ok T tab_el tab_at tab_en check_fn float_parse s bs t st OK L) as [TY LK].
+  exact (ref_plain T OK t RC TY LK (load_single_valued T tab_el tab_at tab_en check_fn float_parse s bs t st L)).
 Qed.
